@@ -52,6 +52,10 @@ CHECKS = {
    "Every write history up to depth 3 (thorough 4) over a 10-symbol alphabet on a nine-index schema, with and without a learned binary quantiser, executed in lock-step on five instances (bbolt with unlimited / 1-byte / disabled shared cache, bbolt reopened with a fresh cache manager after every batch, memstore); after every batch each instance must answer the complete battery exactly like the reference model (so warm, evicted, disabled, cold and in-memory answers coincide) and the reopened file's buckets must be byte-identical before close, after reopen and after querying.",
    "approximate graph answers outside the exact regimes are not compared across instances; fsync/commit of bbolt trusted; rejected batches are not applied to memstore (as the property scopes it)",
    "exhaustive enumeration of write histories in lock-step over five configurations of the real code (differential + reference model)", "DESIGN.md §4 C08"),
+ "C11": (True, "schedx", "model_checking",
+   "Stateless preemption-bounded search over ALL interleavings of two (thorough: also three) transaction programs on the real cache manager: manager.go is compiled with its sync / sync/atomic imports redirected (build overlay generated from the working tree) to cooperative shims, so every Lock/RLock/TryRLock/Unlock and atomic.Bool operation is a scheduling point; 12 transaction shapes x evictor x manager size {-1,0,1,10} x initial map; quick: 936 pair programs with <=1 preemption and 72 with <=2 (3.2M complete executions), thorough: all pairs <=2, triples <=1, core <=3. Monitors: writer isolation, no uncommitted state observed, scrapped caches never handed out, shared caches reflect committed storage, deadlock freedom, final write+commit probe on every cache.",
+   "storage is a stand-in (per-cache committed version + per-shard single-writer token); sequentially consistent interleavings of the shimmed operations; usage protocol of the shard (each With returns before Commit)",
+   "stateless DFS over schedules of the real code under a controlled scheduler, iterative preemption bounding", "DESIGN.md §4 C11"),
 }
 
 props = [json.loads(l) for l in open(os.path.join(HERE, "properties.jsonl"))]
